@@ -889,3 +889,7 @@ def r7(cx):
                 cx.violation(FORK_FROM, 'field:%s' % f, 'the child\'s parent process id must be the id of the forking process '
                              '(argument ppid)', loc=loc0)
     cx.sample({'function': FORK_FROM, 'copied': sorted(f for f, l in per.items() if any(w[1] == {f} for w in l))})
+
+import witness
+witness.add(RS, 'C08.R5', ['c08_child_borrows_parent'],
+            'compile-fail witness: the task run in a subshell cannot borrow parent state (E0597: Config::start requires a \'static task); the owning twin compiles')
